@@ -72,3 +72,38 @@ MUTANTS["C07"] = [
     ("command-strips-request", [(SS, "            port_name.write(cmd.encode('ascii'))\n            response = port_name.readline().decode('ascii')\n            n_retry_count = 0\n            while len(response) == 0 and n_retry_count < 100:\n                # get new response to replace null response if necessary\n                response = port_name.readline().decode('ascii')\n                n_retry_count += 1\n            if response.strip()", "            port_name.write(cmd.strip().encode('ascii') + b'\\r')\n            response = port_name.readline().decode('ascii')\n            n_retry_count = 0\n            while len(response) == 0 and n_retry_count < 100:\n                # get new response to replace null response if necessary\n                response = port_name.readline().decode('ascii')\n                n_retry_count += 1\n            if response.strip()")]),
     ("query-returns-stripped-or-none", [(SS, "        return response\n    return None\n\n\ndef command", "        return response or None\n    return None\n\n\ndef command")]),
 ]
+
+PU = "plotink/plot_utils.py"
+MUTANTS["C08"] = [
+    ("left-clips-at-xmax", [(PU, "            x_new = x_min  # Find intersection of our segment with x_min\n            slope = (y_2 - y_1) / (x_2 - x_1)\n            y_new = slope * (x_min - x_1) + y_1", "            x_new = x_min  # Find intersection of our segment with x_min\n            slope = (y_2 - y_1) / (x_2 - x_1)\n            y_new = slope * (x_max - x_1) + y_1")]),
+    ("top-clips-at-ymax", [(PU, "            y_new = y_min  # Find intersection of our segment with y_min", "            y_new = y_max  # Find intersection of our segment with y_min")]),
+    ("trivial-reject-or", [(PU, "        if code_1 & code_2:", "        if code_1 | code_2:")]),
+    ("new-point-wrong-end", [(PU, "        if code == code_1:\n            x_1 = x_new\n            y_1 = y_new\n        else:\n            x_2 = x_new\n            y_2 = y_new", "        if code != code_1:\n            x_1 = x_new\n            y_1 = y_new\n        else:\n            x_2 = x_new\n            y_2 = y_new")]),
+    ("region-code-ge", [(PU, "    if x_in > x_max:\n        code |= 2 # Right", "    if x_in >= x_max:\n        code |= 2 # Right")]),
+    ("returns-reversed", [(PU, "        segment = [[x_1, y_1], [x_2, y_2]] # Now checking this clipped segment", "        segment = [[x_2, y_2], [x_1, y_1]] # Now checking this clipped segment")]),
+    ("failsafe-rejects", [(PU, "            return True, segment # Avoids infinite loops near precision limits.", "            return False, segment # Avoids infinite loops near precision limits.")]),
+    ("failsafe-removed", [(PU, "        if iterations > 3: # Failsafe; exit if the value has not converged;\n            return True, segment # Avoids infinite loops near precision limits.\n", "")]),
+    ("failsafe-too-early", [(PU, "        if iterations > 3: # Failsafe", "        if iterations > 2: # Failsafe")]),
+    ("bottom-slope-inverted", [(PU, "            y_new = y_max  # Find intersection of our segment with y_max\n            slope = (x_2 - x_1) / (y_2 - y_1)\n            x_new = slope * (y_max - y_1) + x_1", "            y_new = y_max  # Find intersection of our segment with y_max\n            slope = (x_2 - x_1) / (y_2 - y_1)\n            x_new = slope * (y_max - y_2) + x_1")]),
+]
+
+MUTANTS["C09"] = [
+    ("slice-deletes-one-more", [(PU, "        vertices[start_index + 1:end_index - 1] = [] # delete", "        vertices[start_index + 1:end_index] = [] # delete")]),
+    ("first-region-strict", [(PU, "            if ( dx_p_s0 * dx_p_s0 + dy_p_s0 * dy_p_s0 ) >= tol_squared:", "            if ( dx_p_s0 * dx_p_s0 + dy_p_s0 * dy_p_s0 ) > tol_squared:")]),
+    ("second-region-measured-to-start", [(PU, "            if ((p_x - seg_1x)*(p_x - seg_1x) + (p_y - seg_1y)*(p_y - seg_1y)) >= tol_squared:", "            if ((p_x - seg_0x)*(p_x - seg_0x) + (p_y - seg_0y)*(p_y - seg_0y)) >= tol_squared:")]),
+    ("perp-test-4x", [(PU, "        if (temp * temp / seg_length_squared) >= tol_squared:", "        if (temp * temp / seg_length_squared) >= 4 * tol_squared:")]),
+    ("perp-strict", [(PU, "        if (temp * temp / seg_length_squared) >= tol_squared:", "        if (temp * temp / seg_length_squared) > tol_squared:")]),
+    ("negative-tol-not-rejected", [(PU, "    if tolerance <= 0:\n        return\n\n    start_index = 0", "    if tolerance == 0:\n        return\n\n    start_index = 0")]),
+    ("interior-skips-last", [(PU, "    for point in input_points[1:-1]: # All vertices except first and last", "    for point in input_points[1:-2]: # All vertices except first and last")]),
+    ("copies-vertices", [(PU, "        vertices[start_index + 1:end_index - 1] = [] # delete (start_index, end_index), exclusive\n        start_index += 1", "        vertices[start_index + 1:end_index - 1] = [] # delete (start_index, end_index), exclusive\n        start_index += 1\n    vertices[:] = [list(v) for v in vertices]")]),
+]
+
+MUTANTS["C10"] = [
+    ("handle-from-two-1", [(PU, "        s_p[i][0] = two[2]", "        s_p[i][0] = two[1]")]),
+    ("inserted-node-from-one-1", [(PU, "        p_list = [one[2], one[3], two[1]]", "        p_list = [one[1], one[3], two[1]]")]),
+    ("split-at-0.4", [(PU, "        one, two = bezmisc.beziersplitatt(b_list, 0.5)", "        one, two = bezmisc.beziersplitatt(b_list, 0.4)")]),
+    ("flatness-skips-p2", [(PU, "            b_list = (p_0, p_1, p_2, p_3)\n\n            if not points_in_tolerance(b_list, flat):", "            b_list = (p_0, p_1, p_2, p_3)\n\n            if not points_in_tolerance((p_0, p_1, p_3), flat):")]),
+    ("left-handle-not-updated", [(PU, "        s_p[i - 1][2] = one[1]\n", "")]),
+    ("skip-after-split", [(PU, "        s_p[i:1] = [p_list]", "        s_p[i:1] = [p_list]\n        i += 1")]),
+    ("flatness-doubled", [(PU, "            if not points_in_tolerance(b_list, flat):", "            if not points_in_tolerance(b_list, 2 * flat):")]),
+]
